@@ -523,3 +523,171 @@ Lemma map_l_insert {A B} (g : A -> B) i x l : map g (l_insert i x l) = l_insert 
 Proof. unfold l_insert. rewrite map_app. cbn [map]. now rewrite firstn_map, skipn_map. Qed.
 Lemma map_l_remove {A B} (g : A -> B) i l : map g (l_remove i l) = l_remove i (map g l).
 Proof. unfold l_remove. rewrite map_app. now rewrite firstn_map, skipn_map. Qed.
+
+(* ------------------------------------------------------------------ alternatives inside an entry *)
+Definition preR (a : list rtree) : list rtree :=
+  match a with [] => [] | _ => join_relations fixed 0 a ++ [t_space; t_pipe; t_space] end.
+Lemma join_relations_split a x b : join_relations fixed 0 (a ++ x :: b) = preR a ++ x :: sepR b.
+Proof.
+  destruct a as [|y r]; [cbn [app preR]; now rewrite join_relations_0|].
+  cbn [app preR]. rewrite !join_relations_0. rewrite sepR_app. cbn [sepR flat_map app].
+  rewrite <- app_assoc. reflexivity.
+Qed.
+Lemma join_relations_length rs : length (join_relations fixed 0 rs) = 4 * length rs - 3.
+Proof.
+  destruct rs as [|e r]; [reflexivity|]. rewrite join_relations_0.
+  change (length (e :: sepR r)) with (S (length (sepR r))). rewrite sepR_length.
+  change (length (e :: r)) with (S (length r)). lia.
+Qed.
+Lemma preR_length a : length (preR a) = 4 * length a.
+Proof.
+  destruct a as [|y r]; [reflexivity|]. unfold preR. rewrite app_length, join_relations_length.
+  cbn [length]. lia.
+Qed.
+Lemma preR_snoc a x : preR (a ++ [x]) = preR a ++ [x; t_space; t_pipe; t_space].
+Proof.
+  unfold preR at 1. destruct (a ++ [x]) eqn:E; [destruct a; discriminate|]. rewrite <- E.
+  rewrite (join_relations_split a x []). cbn [sepR flat_map]. now rewrite <- app_assoc.
+Qed.
+
+Lemma nth_index_sepR n rs : Forall relationish rs ->
+  nth_index is_relation n (sepR rs) = if n <? length rs then Some (4 * n + 3) else None.
+Proof.
+  intros H. revert n. induction H as [|e r He Hr IH]; intros n; [destruct n; reflexivity|].
+  cbn [sepR flat_map app nth_index].
+  change (is_relation t_pipe) with false. change (is_relation t_space) with false. cbn iota.
+  rewrite (relationish_is_relation _ He). destruct n as [|n]; [reflexivity|].
+  change (flat_map (fun e0 => [t_space; t_pipe; t_space; e0]) r) with (sepR r). rewrite IH.
+  cbn [length]. destruct (n <? length r) eqn:E.
+  - assert (S n <? S (length r) = true) as -> by (apply Nat.ltb_lt; apply Nat.ltb_lt in E; lia).
+    cbn. f_equal. lia.
+  - assert (S n <? S (length r) = false) as -> by (apply Nat.ltb_ge; apply Nat.ltb_ge in E; lia).
+    reflexivity.
+Qed.
+Lemma nth_index_join_relations n rs : Forall relationish rs ->
+  nth_index is_relation n (join_relations fixed 0 rs) = if n <? length rs then Some (4 * n) else None.
+Proof.
+  intros H. destruct H as [|e r He Hr]; [destruct n; reflexivity|].
+  rewrite join_relations_0. cbn [nth_index]. rewrite (relationish_is_relation _ He).
+  destruct n as [|n]; [reflexivity|]. rewrite (nth_index_sepR _ _ Hr). cbn [length].
+  destruct (n <? length r) eqn:E.
+  - assert (S n <? S (length r) = true) as -> by (apply Nat.ltb_lt; apply Nat.ltb_lt in E; lia).
+    cbn. f_equal. lia.
+  - assert (S n <? S (length r) = false) as -> by (apply Nat.ltb_ge; apply Nat.ltb_ge in E; lia).
+    reflexivity.
+Qed.
+Lemma count_relations_sepR rs : Forall relationish rs -> count_if is_relation (sepR rs) = length rs.
+Proof.
+  intros H. induction H as [|e r He Hr IH]; [reflexivity|].
+  unfold count_if in *. cbn [sepR flat_map app filter].
+  change (is_relation t_pipe) with false. change (is_relation t_space) with false. cbn iota.
+  rewrite (relationish_is_relation _ He). cbn [length]. f_equal. exact IH.
+Qed.
+Lemma count_relations_join rs : Forall relationish rs -> count_if is_relation (join_relations fixed 0 rs) = length rs.
+Proof.
+  intros H. destruct H as [|e r He Hr]; [reflexivity|].
+  rewrite join_relations_0. unfold count_if. cbn [filter]. rewrite (relationish_is_relation _ He).
+  cbn [length]. f_equal. apply (count_relations_sepR _ Hr).
+Qed.
+
+(* ------------------------------------------------------------------ paths into a constructor-built field *)
+Lemma centry_children_split ra r0 rb :
+  children (centry_tree (ra ++ r0 :: rb)) =
+  preR (map crel_tree ra) ++ crel_tree r0 :: sepR (map crel_tree rb) /\
+  length (preR (map crel_tree ra)) = 4 * length ra.
+Proof.
+  unfold centry_tree, entry_from_relations. cbn [children]. rewrite map_app. cbn [map].
+  rewrite join_relations_split. split; [reflexivity|]. now rewrite preR_length, map_length.
+Qed.
+Lemma cfield_children_split' fa e0 fb :
+  children (cfield_tree (fa ++ e0 :: fb)) =
+  preE (map centry_tree fa) ++ centry_tree e0 :: sepE (map centry_tree fb) /\
+  length (preE (map centry_tree fa)) = 3 * length fa.
+Proof.
+  unfold cfield_tree, relations_from_entries. cbn [children]. rewrite map_app. cbn [map].
+  rewrite join_entries_split. split; [reflexivity|]. now rewrite preE_length, map_length.
+Qed.
+
+Lemma get_path_cfield_entry fa e0 fb :
+  get_path (cfield_tree (fa ++ e0 :: fb)) [3 * length fa] = Some (centry_tree e0).
+Proof.
+  destruct (cfield_children_split' fa e0 fb) as [E L]. cbn [get_path]. rewrite E, <- L.
+  now rewrite nth_error_app_len.
+Qed.
+Lemma get_path_centry_rel ra r0 rb :
+  get_path (centry_tree (ra ++ r0 :: rb)) [4 * length ra] = Some (crel_tree r0).
+Proof.
+  destruct (centry_children_split ra r0 rb) as [E L]. cbn [get_path]. rewrite E, <- L.
+  now rewrite nth_error_app_len.
+Qed.
+Lemma get_path_cfield_rel fa ra r0 rb fb :
+  get_path (cfield_tree (fa ++ (ra ++ r0 :: rb) :: fb)) [3 * length fa; 4 * length ra] = Some (crel_tree r0).
+Proof.
+  change [3 * length fa; 4 * length ra] with ([3 * length fa] ++ [4 * length ra]).
+  rewrite get_path_app, get_path_cfield_entry. apply get_path_centry_rel.
+Qed.
+
+(* replacing the i-th entry / the j-th alternative of the i-th entry *)
+Lemma upd_cfield_entry fa e0 fb e' :
+  upd_path (cfield_tree (fa ++ e0 :: fb)) [3 * length fa] (fun _ => centry_tree e') =
+  cfield_tree (fa ++ e' :: fb).
+Proof.
+  destruct (cfield_children_split' fa e0 fb) as [E L]. destruct (cfield_children_split' fa e' fb) as [E' _].
+  unfold cfield_tree, relations_from_entries in *. cbn [children upd_path] in *. f_equal.
+  rewrite E, E', <- L. now rewrite upd_nth_app_r.
+Qed.
+Lemma upd_centry_rel ra r0 rb r' :
+  upd_path (centry_tree (ra ++ r0 :: rb)) [4 * length ra] (fun _ => crel_tree r') =
+  centry_tree (ra ++ r' :: rb).
+Proof.
+  destruct (centry_children_split ra r0 rb) as [E L]. destruct (centry_children_split ra r' rb) as [E' _].
+  unfold centry_tree, entry_from_relations in *. cbn [children upd_path] in *. f_equal.
+  rewrite E, E', <- L. now rewrite upd_nth_app_r.
+Qed.
+Lemma upd_path_cons_step t i r f c :
+  nth_error (children t) i = Some c -> is_node t = true ->
+  upd_path t (i :: r) f = upd_path t [i] (fun _ => upd_path c r f).
+Proof.
+  intros H N. destruct t as [k s|k cs]; [discriminate|]. cbn [upd_path children] in *. f_equal.
+  eapply upd_nth_ext_at; [exact H|reflexivity].
+Qed.
+Lemma upd_cfield_rel fa ra r0 rb fb r' :
+  upd_path (cfield_tree (fa ++ (ra ++ r0 :: rb) :: fb)) [3 * length fa; 4 * length ra] (fun _ => crel_tree r') =
+  cfield_tree (fa ++ (ra ++ r' :: rb) :: fb).
+Proof.
+  pose proof (get_path_cfield_entry fa (ra ++ r0 :: rb) fb) as G. cbn [get_path] in G.
+  destruct (nth_error (children (cfield_tree (fa ++ (ra ++ r0 :: rb) :: fb))) (3 * length fa)) as [c|] eqn:E; [|discriminate].
+  inversion G; subst c.
+  rewrite (upd_path_cons_step _ _ _ _ _ E eq_refl). rewrite upd_centry_rel. apply upd_cfield_entry.
+Qed.
+
+(* the list model's view of "apply g to alternative j of entry i" *)
+Lemma l_on_relation_split {A} (g : A -> A) (fa : list (list A)) ra r0 rb fb :
+  l_on_relation (length fa) (length ra) g (fa ++ (ra ++ r0 :: rb) :: fb) = fa ++ (ra ++ g r0 :: rb) :: fb.
+Proof. unfold l_on_relation. rewrite upd_nth_app_r. now rewrite upd_nth_app_r. Qed.
+
+(* ------------------------------------------------------------------ a node seen from its parent *)
+Lemma get_path_snoc_inv T pp i N : get_path T (pp ++ [i]) = Some N ->
+  exists kd pre post, get_path T pp = Some (Node kd (pre ++ N :: post)) /\ length pre = i.
+Proof.
+  rewrite get_path_app. destruct (get_path T pp) as [[k s|kd cs]|] eqn:E; try discriminate.
+  - cbn. destruct i; discriminate.
+  - cbn [get_path children]. destruct (nth_error cs i) as [c|] eqn:Ec; [|discriminate].
+    intros [= <-]. destruct (nth_error_split_eq _ _ _ Ec) as [Ecs L].
+    exists kd, (firstn i cs), (skipn (S i) cs). now rewrite <- Ecs.
+Qed.
+Lemma upd_path_app t p q f n :
+  get_path t p = Some n -> upd_path t (p ++ q) f = upd_path t p (fun x => upd_path x q f).
+Proof.
+  revert t; induction p as [|i r IH]; intros t H; cbn in *; [reflexivity|].
+  destruct t as [k s|k cs]; cbn in *; [destruct i; discriminate|].
+  destruct (nth_error cs i) as [c|] eqn:E; [|discriminate].
+  f_equal. eapply upd_nth_ext_at; [exact E|]. now apply IH.
+Qed.
+Lemma upd_path_snoc T pp kd pre N post C :
+  get_path T pp = Some (Node kd (pre ++ N :: post)) ->
+  upd_path T (pp ++ [length pre]) (fun _ => C) = upd_path T pp (fun _ => Node kd (pre ++ C :: post)).
+Proof.
+  intros H. rewrite (upd_path_app _ _ _ _ _ H). eapply upd_path_ext; [exact H|].
+  cbn [upd_path]. now rewrite upd_nth_app_r.
+Qed.
